@@ -29,7 +29,18 @@ def gen_case(rng):
     ds = gen.make_dataset(rng, clim=rng.random() < 0.3, prob=(kind == "prob"), ens=(kind == "ens"),
                           pit=(kind in ("pit", "prob")), some_without_obs=rng.random() < 0.4,
                           members=rng.randint(1, 5))
-    return {"ds": ds, "kind": kind, "clim_type": rng.choice(["subtract", "subtract", "divide"])}
+    sel = {}
+    if rng.random() < 0.5:
+        # selection options in force (-d/-tod/-t/-o/-l/...): the case sets must stay identical across inputs
+        from . import c03
+        for _ in range(20):
+            o, _cls = c03.gen_opts(rng, ds)
+            o.pop("obsrange", None)
+            t, l, s_ = refmodel.common_dims(ds, o)
+            if o and t and l and s_:
+                sel = o
+                break
+    return {"ds": ds, "kind": kind, "clim_type": rng.choice(["subtract", "subtract", "divide"]), "sel": sel}
 
 
 def field_combos(ds, kind):
@@ -78,6 +89,10 @@ def run_case(case, ctx):
     ds = case["ds"]
     kind = case["kind"]
     opts = {"clim_type": case["clim_type"]}
+    opts.update(case.get("sel") or {})
+    sargv = vutil.opts_to_argv(case.get("sel") or {})
+    if sargv:
+        ctx.count("cases_with_selection_options")
     d = os.path.join(ctx.workdir, "c%d" % ctx.evaluations)
     os.makedirs(d, exist_ok=True)
     paths, cpath = gen.materialize(ds, d, random.Random(len(ds["inputs"][0]["cells"]) + 7 * len(ds["inputs"])))
@@ -144,7 +159,8 @@ def run_case(case, ctx):
                             ctx.violation("different-observations", "fields %s axis %s slice %d: input %d is scored against "
                                           "different observations than input 0" % (cname, axis, idx, k), case)
             ctx.case("%d|%s|%s|%s|%s" % (F, bool(cpath), fmts, cname, axis), nontrivial,
-                     {"inputs": gen.ds_summary(ds), "fields": cname, "axis": axis, "clim": case["clim_type"] if cpath else None})
+                     {"inputs": gen.ds_summary(ds), "fields": cname, "axis": axis, "clim": case["clim_type"] if cpath else None,
+                      "selection": sargv})
 
     # whole-array requests (axis All) for every input on ONE dataset object: same cells, identical observations
     fields = [("obs",), ("fcst",)]
@@ -198,7 +214,7 @@ def run_case(case, ctx):
         if cpath:
             cflag = ["-c" if case["clim_type"] == "subtract" else "-C", cpath]
         for axis in ("leadtime", "location", "time", "no"):
-            o = runner.run_cli(paths + cflag + ["-m", "mae", "-agg", "count", "-x", axis, "-type", "csv"])
+            o = runner.run_cli(paths + cflag + sargv + ["-m", "mae", "-agg", "count", "-x", axis, "-type", "csv"])
             if o.status != "ok":
                 ctx.violation("csv-count-run-failed", "count csv failed: %s" % (o.brief(),), case)
                 continue
@@ -219,6 +235,7 @@ def run_case(case, ctx):
             mrng = _r.Random(len(ds["inputs"][0]["cells"]) * 31 + F)
             mcmd = mrng.choice([["-m", "mae"], ["-m", "rmse"], ["-m", "corr"], ["-m", "bias", "-agg", "median"], ["-m", "ets", "-r", "5"],
                                 ["-m", "obs"], ["-m", "mae", "-agg", "count"]]) + ["-x", mrng.choice(["leadtime", "time", "location", "no", "month"])]
+            mcmd = sargv + mcmd
             base = runner.run_cli(paths + cflag + mcmd + ["-type", "csv"])
             b = len(ds["inputs"]) - 1
             ds2 = {"inputs": [dict(i) for i in ds["inputs"]], "clim": ds["clim"]}
